@@ -4,8 +4,8 @@
    byte lists and return `option (value * output buffer)`.  The maps below say how a model result reads as such an option
    (or the other way round for encode); the tie theorems are equalities through these maps.  Nothing here mentions
    generated code. *)
-From Coq Require Import NArith PeanoNat List Bool Lia.
-From LibaV Require Import C18.UtfDefs C19.IntDefs.
+From Coq Require Import NArith ZArith PeanoNat List Bool Lia.
+From LibaV Require Import C18.UtfDefs C18.UtfBits C19.IntDefs.
 From LibaV Require C19.TieLemmas.
 Import ListNotations.
 Local Open Scope N_scope.
@@ -75,3 +75,93 @@ Proof. reflexivity. Qed.
 
 Lemma wrap64_SZ x : wrap 64 x = x mod SZ.
 Proof. reflexivity. Qed.
+
+(* ---- a_utf_length_ : the bytes are read through plain `char`, i.e. as values in -128 .. 127; c2int carries them in Z
+   (sext, the same text as in its prelude) and the masks / comparisons of the C are Z.land / Z.eqb on those *)
+Definition sext (w c : N) : Z := if c <? 2 ^ (w - 1) then Z.of_N c else (Z.of_N c - Z.of_N (2 ^ w))%Z.
+
+(* the cascade `if ((c & 0xFE) == 0xFC) 6 else if ((c & 0xFC) == 0xF8) 5 ...` (c the char at str) on the signed value of the byte *)
+Definition gstep (c : N) : N :=
+  if Z.eqb (Z.land (sext 8 c) (Z.of_N 254)) (Z.of_N 252) then 6
+  else if Z.eqb (Z.land (sext 8 c) (Z.of_N 252)) (Z.of_N 248) then 5
+  else if Z.eqb (Z.land (sext 8 c) (Z.of_N 248)) (Z.of_N 240) then 4
+  else if Z.eqb (Z.land (sext 8 c) (Z.of_N 240)) (Z.of_N 224) then 3
+  else if Z.eqb (Z.land (sext 8 c) (Z.of_N 224)) (Z.of_N 192) then 2
+  else 1.
+
+(* for every byte the signed reading decides as the model's unsigned one (256-element sweep, lifted by UtfBits.sweep) *)
+Lemma gstep_eq c : c < 256 -> gstep c = len2_step c.
+Proof.
+  intros H. change 256 with (N.of_nat 256) in H.
+  apply (sweep (fun b => gstep b =? len2_step b) 256) in H; [apply N.eqb_eq, H|]. vm_compute. reflexivity.
+Qed.
+
+Lemma sext_zero c : c < 256 -> Z.eqb (sext 8 c) 0 = (c =? 0).
+Proof.
+  intros H. change 256 with (N.of_nat 256) in H.
+  apply (sweep (fun b => Bool.eqb (Z.eqb (sext 8 b) 0) (b =? 0)) 256) in H; [apply Bool.eqb_prop, H|]. vm_compute. reflexivity.
+Qed.
+
+Definition len2_of (r : nres) : option N :=
+  match r with
+  | NRet n _ => Some n
+  | NOver | NFuel => None
+  end.
+
+Lemma load_skipn : forall l p i, T.load (skipn p l) i = T.load l (N.of_nat p + i).
+Proof.
+  unfold T.load. intros l p i. replace (N.to_nat (N.of_nat p + i)) with (p + N.to_nat i)%nat by lia.
+  revert l. induction p as [|p IH]; intros l; [reflexivity|]. destruct l as [|h t]; [destruct (N.to_nat i); reflexivity|]. apply IH.
+Qed.
+
+(* ---- more bytes available than the ghost count says: a run of the model that did not fail a read stays the same.
+   (Used where a caller states num bytes inside a longer block: coq/C06 a_utf_len.) *)
+Lemma rd_mono s a a' i c : a <= a' -> rd s a i = Some c -> rd s a' i = Some c.
+Proof.
+  unfold rd. intros H. destruct (i <? a) eqn:E; [|discriminate].
+  apply N.ltb_lt in E. replace (i <? a') with true by (symmetry; apply N.ltb_lt; lia). exact (fun x => x).
+Qed.
+
+Lemma dec_loop_val_mono a a' : a <= a' -> forall fuel s nul chr i code r,
+  dec_loop_val fuel s a nul chr i code = r -> r <> LOver -> dec_loop_val fuel s a' nul chr i code = r.
+Proof.
+  intros H. induction fuel as [|f IH]; intros s nul chr i code r E Hr; [exact E|].
+  cbn [dec_loop_val] in *. cbv zeta in *. destruct (N.land chr 64 =? 0); [exact E|].
+  destruct (i + 1 <? nul).
+  - destruct (rd s a (i + 1)) as [c|] eqn:R; [|congruence]. rewrite (rd_mono _ _ _ _ _ H R).
+    destruct (N.land c 192 =? 128); [apply IH; assumption|exact E].
+  - destruct (N.land 0 192 =? 128); [apply IH; assumption|exact E].
+Qed.
+
+Lemma dec_loop_nul_mono a a' : a <= a' -> forall fuel s nul chr i r,
+  dec_loop_nul fuel s a nul chr i = r -> r <> LOver -> dec_loop_nul fuel s a' nul chr i = r.
+Proof.
+  intros H. induction fuel as [|f IH]; intros s nul chr i r E Hr; [exact E|].
+  cbn [dec_loop_nul] in *. cbv zeta in *. destruct (N.land chr 64 =? 0); [exact E|].
+  destruct (i + 1 <? nul).
+  - destruct (rd s a (i + 1)) as [c|] eqn:R; [|congruence]. rewrite (rd_mono _ _ _ _ _ H R).
+    destruct (N.land c 192 =? 128); [apply IH; assumption|exact E].
+  - destruct (N.land 0 192 =? 128); [apply IH; assumption|exact E].
+Qed.
+
+Lemma decode_mono s a a' num want r v : a <= a' ->
+  a_utf_decode s a num want = DRet r v -> a_utf_decode s a' num want = DRet r v.
+Proof.
+  intros H. unfold a_utf_decode. destruct (num =? 0); [exact (fun x => x)|].
+  destruct (rd s a 0) as [chr|] eqn:R; [|discriminate]. rewrite (rd_mono _ _ _ _ _ H R).
+  destruct (chr <? 128); [exact (fun x => x)|]. cbv zeta.
+  destruct want.
+  - destruct (dec_loop_val dec_fuel s a _ chr 0 0) as [| | |c' i' code'] eqn:L; try discriminate;
+      rewrite (dec_loop_val_mono a a' H _ _ _ _ _ _ _ L) by discriminate; exact (fun x => x).
+  - destruct (dec_loop_nul dec_fuel s a _ chr 0) as [| | |c' i' code'] eqn:L; try discriminate;
+      rewrite (dec_loop_nul_mono a a' H _ _ _ _ _ _ L) by discriminate; exact (fun x => x).
+Qed.
+
+Lemma len_loop_mono w : forall f s a a' num pos len n k, a <= a' ->
+  len_loop f s a num pos len w = NRet n k -> len_loop f s a' num pos len w = NRet n k.
+Proof.
+  induction f as [|f IH]; intros s a a' num pos len n k H; [discriminate|].
+  cbn [len_loop]. destruct (a_utf_decode s a num false) as [| |off v] eqn:D; try discriminate.
+  rewrite (decode_mono _ _ _ _ _ _ _ H D). destruct (off =? 0); [exact (fun x => x)|].
+  apply IH. lia.
+Qed.
